@@ -79,11 +79,38 @@ def w_ortho_trunc(ctx, rng, idx):
             cores[i] = np.tensordot(cores[i], g, axes=([3], [0]))
             cores[i + 1] = np.tensordot(np.linalg.pinv(g), cores[i + 1], axes=([1], [0]))
 
+    if rng.random() < 0.2:
+        # trains in which one ndarray object sits at several positions (product states [site] * d, identical end caps around a bulk,
+        # homogeneous chains), some of them with Fortran-ordered cores: the documented way to write such tensors; a sweep that lets
+        # LAPACK work in the buffer of one position changes the others
+        d = int(rng.integers(2, 5))
+        n = int(rng.integers(2, 4))
+        cplx = bool(np.iscomplexobj(x))
+        rows, cols = [n] * d, [1] * d
+        u = int(rng.integers(0, 3))
+        if u == 0:
+            site = gen.randn(rng, (1, n, 1, 1), cplx)
+            cores = [site] * d
+        elif u == 1 and d >= 3:
+            r = int(rng.integers(1, 4))
+            cap = gen.randn(rng, (1, n, 1, 1), cplx)
+            cores = [cap, gen.randn(rng, (1, n, 1, r), cplx)] + [gen.randn(rng, (r, n, 1, r), cplx) for _ in range(d - 4)] + [gen.randn(rng, (r, n, 1, 1), cplx), cap]
+            cores = cores if len(cores) == d else [cap] * d
+        else:
+            r = int(rng.integers(1, 3))
+            cores = gen.alias_equal_shapes(gen.rand_cores(rng, rows, cols, [1] + [r] * (d - 1) + [1], cplx))
+        if rng.random() < 0.4:
+            seen = {}
+            for c in cores:
+                seen.setdefault(id(c), np.asfortranarray(c))
+            cores = [seen[id(c)] for c in cores]
+        kind = 'shared_core_objects'
+
     hist_seed = int(rng.integers(0, 2 ** 31))
 
     def fresh():
         with probe.oracle():
-            t_ = tt.TT([c.copy() for c in cores])
+            t_ = tt.TT(gen.clone_cores(cores))
             if with_history:  # the same history for every copy: sweeps, in-place mutators that no sweep is told about, re-construction
                 t_ = gen.provenance(np.random.default_rng(hist_seed), t_, steps=int(hist_seed % 3) + 1, reorder=True)
             return t_
@@ -98,9 +125,9 @@ def w_ortho_trunc(ctx, rng, idx):
     call('TT.ortho', lambda: t.ortho(max_rank=mrl), prop=P)
     t = fresh()
     call('TT.ortho', lambda: t.ortho(threshold=thr), prop=P)
-    call('TT.__init__', lambda: tt.TT([c.copy() for c in cores], max_rank=mr), prop=P)
-    call('TT.__init__', lambda: tt.TT([c.copy() for c in cores], max_rank=mrl), prop=P)
-    call('TT.__init__', lambda: tt.TT([c.copy() for c in cores], threshold=thr), prop=P)
+    call('TT.__init__', lambda: tt.TT(gen.clone_cores(cores), max_rank=mr), prop=P)
+    call('TT.__init__', lambda: tt.TT(gen.clone_cores(cores), max_rank=mrl), prop=P)
+    call('TT.__init__', lambda: tt.TT(gen.clone_cores(cores), threshold=thr), prop=P)
     # one-sided truncating sweeps after the opposite side was orthonormalised (precondition measured by the contract)
     t = fresh()
     call('TT.ortho_left', t.ortho_left, prop=P)
